@@ -2239,6 +2239,43 @@ pub fn gen_cases(topic: &str, seed: u64, n: usize, path: &str) -> Result<(), Str
         w.flush().map_err(|e| e.to_string())?;
         return Ok(());
     }
+    if topic == "keys" {
+        // random key texts (runner `key`): documented forms with padding and odd white space, multi-word names,
+        // indexed / dotted names, keyword-shaped words, bracket soups, non-ASCII letters, long counts
+        let mut g = G::new(seed ^ 0x6B65);
+        let mut w = BufWriter::new(File::create(path).map_err(|e| e.to_string())?);
+        let words = ["a", "Image", "Path", "b1", "a.b", "tags[0]", "a.b[1].c", "x_y", "n#1", "and", "or", "not", "all", "of", "int",
+                     "order", "android", "nothing", "offline", "allow", "integer", "string", "é", "ß", "K", "_id", "1st", "e-mail", "a,b"];
+        let seps = [" ", " ", " ", "  ", "\t", "\n", " \t ", "\u{b}", "\u{c}", "\r", "\u{a0}", ""];
+        let mods = ["int(", "flt(", "str(", "not(", "all(", "of(", "string(", "int (", "all (", "of (", "not ", "INT(", "Int(", "("];
+        for _ in 0..n {
+            let mut name = String::new();
+            for i in 0..1 + g.r.below(3) {
+                if i > 0 { name.push_str(*g.r.pick(&seps[..])); }
+                name.push_str(*g.r.pick(&words[..]));
+            }
+            let pad = |g: &mut G| if g.r.chance(1, 3) { g.r.pick(&seps[..]).to_string() } else { String::new() };
+            let text = match g.r.below(8) {
+                0 | 1 => format!("{}{}{}", pad(&mut g), name, pad(&mut g)),
+                2 | 3 | 4 => {
+                    let m = g.r.pick(&mods[..]).to_string();
+                    let count = if m.starts_with("of") {
+                        let c = ["0", "1", "2", "02", "10", "9999", "10000", "99999", "18446744073709551616", "-1", "1.5", "2 ", " 2", "x", ""];
+                        format!("{}{},{}{}", pad(&mut g), if g.r.chance(1, 8) { "," } else { "" }, pad(&mut g), *g.r.pick(&c[..]))
+                    } else { String::new() };
+                    let close = if g.r.chance(1, 10) { "" } else if g.r.chance(1, 10) { "))" } else { ")" };
+                    format!("{}{}{}{}{}{}{}{}", pad(&mut g), m, pad(&mut g), name, pad(&mut g), count, close, pad(&mut g))
+                }
+                5 => { let m = g.r.pick(&mods[..]).to_string(); let m2 = g.r.pick(&mods[..]).to_string(); format!("{}{}{}))", m, m2, name) }
+                6 => { let o = ["==", ">", "<=", " and ", " or ", ",", "(", ")", "[", "]"]; format!("{}{}{}", name, *g.r.pick(&o[..]), *g.r.pick(&words[..])) }
+                _ => { let mut s = String::new(); for _ in 0..g.r.below(7) { let pool = ["(", ")", ",", " ", "a", "int(", "of(", "all(", "not ", "2", ".", "[", "]", "\t", "and ", "=", "-", "#"]; s.push_str(*g.r.pick(&pool[..])); } s }
+            };
+            let c = json!({"topic":"keys","run":"key","text":cps(&text)});
+            writeln!(w, "{}", c).map_err(|e| e.to_string())?;
+        }
+        w.flush().map_err(|e| e.to_string())?;
+        return Ok(());
+    }
     if topic == "fuzz" || topic == "condfuzz" || topic == "identfuzz" {
         let mut g = G::new(seed ^ 0xF022);
         let mut w = BufWriter::new(File::create(path).map_err(|e| e.to_string())?);
